@@ -11,6 +11,10 @@ pub const PLAIN_KEYS: &[&str] = &[
     "a", "b", "c", "d", "ab", "A", "_", "a1", "é", "☺", "𝄞", "", " ", "a b", "0", "1", "-1", "*", "$", "@", "a.b",
     "length", "/", "~", "~0", "~1", "a/b", "\u{a0}", "\u{2028}", "\u{3000}a", "\u{7f}", "\u{ff21}", "\u{e000}", "\u{1f600}",
     "\u{e9}\u{e9}/x", "\u{1d11e}/\u{1d11e}",
+    // look-alikes that only a Unicode normalisation would identify (precomposed / decomposed, compatibility
+    // characters), case variants, and long names
+    "e\u{301}", "\u{c5}", "\u{212b}", "A\u{30a}", "\u{df}", "ss", "SS", "\u{131}", "i", "I",
+    "kkkkkkkkkkkkkkkkkkkkkkkkkkkkkkkkkkkkkkkkkkkkkkkkkkkkkkkkkkkkkkkkkkkkkk", "\u{e9}\u{e9}\u{e9}\u{e9}\u{e9}\u{e9}\u{e9}\u{e9}\u{e9}\u{e9}\u{e9}\u{e9}\u{e9}\u{e9}\u{e9}\u{e9}\u{e9}\u{e9}\u{e9}\u{e9}\u{e9}\u{e9}\u{e9}\u{e9}\u{e9}\u{e9}\u{e9}\u{e9}\u{e9}\u{e9}\u{e9}\u{e9}\u{e9}\u{e9}\u{e9}\u{e9}\u{e9}\u{e9}\u{e9}\u{e9}",
 ];
 
 /// names that need an escape in at least one quoting style, or in every one
